@@ -172,8 +172,8 @@ Section Frames.
 
   Lemma do_checkout_keeps r st : keeps st (do_checkout c r st).
   Proof.
-    unfold do_checkout. destruct (memN (r_id r) (corun st)); [apply keeps_refl|].
-    destruct (negb (memN (r_id r) (srcx st)) && c_can_upload c && r_haslive r); [destruct (r_livecalc r)|]; repeat split.
+    unfold do_checkout. destruct (memN (r_src r) (corun st)); [apply keeps_refl|].
+    destruct (negb (memN (r_src r) (srcx st)) && c_can_upload c && r_haslive r); [destruct (r_livecalc r)|]; repeat split.
   Qed.
 
   Lemma translate_keeps l st t s : translate c l st = (t, s) -> keeps st s.
@@ -190,8 +190,8 @@ Section Frames.
 
   Lemma src_bid_keeps r st b s : src_bid c r st = (b, s) -> keeps st s.
   Proof.
-    unfold src_bid. destruct (lookupN (r_id r) (srcids st)) as [[b0 pr]|]; [intros E; inversion E; apply keeps_refl|].
-    destruct (negb (memN (r_id r) (srcx st)) && r_haslive r && c_can_download c).
+    unfold src_bid. destruct (lookupN (r_src r) (srcids st)) as [[b0 pr]|]; [intros E; inversion E; apply keeps_refl|].
+    destruct (negb (memN (r_src r) (srcx st)) && r_haslive r && c_can_download c).
     - destruct (match r_live r with Some l => translate c l st | None => (None, st) end) as [t s0] eqn:T.
       assert (K0 : keeps st s0).
       { destruct (r_live r) as [l|]; [eapply translate_keeps; eauto | inversion T; apply keeps_refl]. }
@@ -402,9 +402,9 @@ Section Frames.
   Lemma cook_checkout_frame S r st :
     match cook_checkout c r st with Ok s | Restart s | Err _ s => frame S st s | _ => True end.
   Proof.
-    unfold cook_checkout. destruct (memN (r_id r) (corun st)); [apply frame_refl|].
+    unfold cook_checkout. destruct (memN (r_src r) (corun st)); [apply frame_refl|].
     unfold verify_src. pose proof (keeps_frame S _ _ (do_checkout_keeps r st)) as K.
-    destruct (lookupN (r_id r) (srcids (do_checkout c r st))) as [[b pr]|]; [|exact K].
+    destruct (lookupN (r_src r) (srcids (do_checkout c r st))) as [[b pr]|]; [|exact K].
     destruct (beqb b (r_srcid r)); [exact K|]. destruct pr; [|exact I].
     eapply frame_trans; [exact K|]. split; [reflexivity|]. cbn. discriminate.
   Qed.
@@ -482,10 +482,10 @@ Section Beliefs.
 
   Lemma tbid_sa_ext :
     (forall p sa1 sa2,
-        (forall x, In x (nodes p) -> has_src (items_of x) = true -> sa1 (pid x) = sa2 (pid x)) ->
+        (forall x, In x (nodes p) -> has_src (items_of x) = true -> sa1 (r_src (recipe_of x)) = sa2 (r_src (recipe_of x))) ->
         tbid_sa bidf sa1 p = tbid_sa bidf sa2 p) /\
     (forall its sa1 sa2,
-        (forall x, In x (nodes_items its) -> has_src (items_of x) = true -> sa1 (pid x) = sa2 (pid x)) ->
+        (forall x, In x (nodes_items its) -> has_src (items_of x) = true -> sa1 (r_src (recipe_of x)) = sa2 (r_src (recipe_of x))) ->
         tbid_sa_items bidf sa1 its = tbid_sa_items bidf sa2 its).
   Proof.
     apply pkg_items_mutind.
@@ -505,7 +505,7 @@ Section Beliefs.
   Lemma tbid_sa_right :
     (forall p sa, right_on sa p -> tbid_sa bidf sa p = tbid bidf p) /\
     (forall its sa,
-        (forall x, In x (nodes_items its) -> has_src (items_of x) = true -> sa (pid x) = r_srcid (recipe_of x)) ->
+        (forall x, In x (nodes_items its) -> has_src (items_of x) = true -> sa (r_src (recipe_of x)) = r_srcid (recipe_of x)) ->
         tbid_sa_items bidf sa its = tbid_items bidf its).
   Proof.
     apply pkg_items_mutind.
@@ -551,6 +551,7 @@ Section Correct.
   Local Notation wellformed := (wellformed hashW).
 
   Hypothesis Huniq : uniq_ids root.
+  Hypothesis Hsrc : src_consistent root.
   Hypothesis Hlive : strict -> live_consistent root.
   Hypothesis Hsound : strict -> ids_sound_in bidf run_build run_pkg root.
   Hypothesis Hup : strict \/ c_can_upload c = false.
@@ -559,7 +560,7 @@ Section Correct.
     fun id => match lookupN id (srcids st) with Some (b, _) => b | None => [] end.
 
   Definition covered (p : pkg) (st : state) : Prop :=
-    forall q, In q (nodes p) -> has_src (items_of q) = true -> lookupN (pid q) (srcids st) <> None.
+    forall q, In q (nodes p) -> has_src (items_of q) = true -> lookupN (r_src (recipe_of q)) (srcids st) <> None.
 
   Definition adm (sa : label -> bytes) (p : pkg) : Prop := strict -> right_on sa p.
 
@@ -574,8 +575,10 @@ Section Correct.
   Record Inv (st : state) : Prop := {
     inv_run : forall p, In p NN -> memN (pid p) (wasrun st) = true -> w_content (getws (pid p) st) = L p;
     inv_trust : forall p, In p NN -> trusted_g p (getws (pid p) st);
-    inv_srcf : forall p b, In p NN -> lookupN (pid p) (srcids st) = Some (b, false) -> b = r_srcid (recipe_of p);
-    inv_srcs : strict -> forall p b pr, In p NN -> lookupN (pid p) (srcids st) = Some (b, pr) -> b = r_srcid (recipe_of p);
+    inv_srcf : forall p b, In p NN -> has_src (items_of p) = true ->
+                           lookupN (r_src (recipe_of p)) (srcids st) = Some (b, false) -> b = r_srcid (recipe_of p);
+    inv_srcs : strict -> forall p b pr, In p NN -> has_src (items_of p) = true ->
+                                        lookupN (r_src (recipe_of p)) (srcids st) = Some (b, pr) -> b = r_srcid (recipe_of p);
     inv_bd : forall p b, In p NN -> lookupN (pid p) (bdids st) = Some b -> b = Tsa (sa_of st) p /\ covered p st;
     inv_tr : strict -> translations_right root st;
     inv_arch : forall p sa a, In p NN -> adm sa p -> lookupB (Tsa sa p) (arch st) = Some a -> wellformed a ->
@@ -641,14 +644,14 @@ Section Correct.
 
   Lemma grows_covered p st s : grows st s -> covered p st -> covered p s.
   Proof.
-    intros G C q Hq Hs. specialize (C q Hq Hs). destruct (lookupN (pid q) (srcids st)) as [v|] eqn:E; [|congruence].
+    intros G C q Hq Hs. specialize (C q Hq Hs). destruct (lookupN (r_src (recipe_of q)) (srcids st)) as [v|] eqn:E; [|congruence].
     rewrite (G _ _ E). discriminate.
   Qed.
 
   Lemma grows_tsa p st s : grows st s -> covered p st -> Tsa (sa_of s) p = Tsa (sa_of st) p.
   Proof.
     intros G C. apply (proj1 (tbid_sa_ext bidf)). intros x Hx Hs. specialize (C x Hx Hs). unfold sa_of.
-    destruct (lookupN (pid x) (srcids st)) as [v|] eqn:E; [|congruence]. now rewrite (G _ _ E).
+    destruct (lookupN (r_src (recipe_of x)) (srcids st)) as [v|] eqn:E; [|congruence]. now rewrite (G _ _ E).
   Qed.
 
   (* a state that differs from st in the source tables only *)
@@ -657,8 +660,10 @@ Section Correct.
 
   Lemma Inv_src_step st s :
     Inv st -> keeps st s -> grows st s -> bdids s = bdids st ->
-    (forall p b, In p NN -> lookupN (pid p) (srcids s) = Some (b, false) -> b = r_srcid (recipe_of p)) ->
-    (strict -> forall p b pr, In p NN -> lookupN (pid p) (srcids s) = Some (b, pr) -> b = r_srcid (recipe_of p)) ->
+    (forall p b, In p NN -> has_src (items_of p) = true ->
+                 lookupN (r_src (recipe_of p)) (srcids s) = Some (b, false) -> b = r_srcid (recipe_of p)) ->
+    (strict -> forall p b pr, In p NN -> has_src (items_of p) = true ->
+                              lookupN (r_src (recipe_of p)) (srcids s) = Some (b, pr) -> b = r_srcid (recipe_of p)) ->
     (strict -> translations_right root s) ->
     Inv s.
   Proof.
@@ -693,8 +698,8 @@ Section Correct.
     In (Pkg r its0) NN -> Inv st ->
     Inv (do_checkout c r st) /\ srcids (do_checkout c r st) = srcids st /\ bdids (do_checkout c r st) = bdids st.
   Proof.
-    intros Hr I. unfold do_checkout. destruct (memN (r_id r) (corun st)); [auto|].
-    set (up := negb (memN (r_id r) (srcx st)) && c_can_upload c && r_haslive r).
+    intros Hr I. unfold do_checkout. destruct (memN (r_src r) (corun st)); [auto|].
+    set (up := negb (memN (r_src r) (srcx st)) && c_can_upload c && r_haslive r).
     destruct up eqn:U; [destruct (r_livecalc r) as [lc|] eqn:LC|].
     - split; [|split; reflexivity].
       apply (Inv_src_step st _ I); [repeat split | intros id v H; exact H | reflexivity | | |].
@@ -718,36 +723,36 @@ Section Correct.
   Qed.
 
   Lemma add_srcid_inv r its0 st b pr :
-    In (Pkg r its0) NN -> Inv st -> lookupN (r_id r) (srcids st) = None ->
+    In (Pkg r its0) NN -> has_src its0 = true -> Inv st -> lookupN (r_src r) (srcids st) = None ->
     (pr = false -> b = r_srcid r) -> (strict -> b = r_srcid r) ->
-    Inv (set_srcids st ((r_id r, (b, pr)) :: srcids st)) /\
-    grows st (set_srcids st ((r_id r, (b, pr)) :: srcids st)).
+    Inv (set_srcids st ((r_src r, (b, pr)) :: srcids st)) /\
+    grows st (set_srcids st ((r_src r, (b, pr)) :: srcids st)).
   Proof.
-    intros Hr I E F S.
-    assert (G : grows st (set_srcids st ((r_id r, (b, pr)) :: srcids st))).
-    { intros id v H. cbn. destruct (N.eqb id (r_id r)) eqn:B; [|exact H]. apply N.eqb_eq in B. subst. congruence. }
+    intros Hr Hs0 I E F S.
+    assert (G : grows st (set_srcids st ((r_src r, (b, pr)) :: srcids st))).
+    { intros id v H. cbn. destruct (N.eqb id (r_src r)) eqn:B; [|exact H]. apply N.eqb_eq in B. subst. congruence. }
     split; [|exact G].
     apply (Inv_src_step st _ I); [repeat split | exact G | reflexivity | | |].
-    - intros p b0 Hp. cbn. destruct (N.eqb (pid p) (r_id r)) eqn:B.
-      + apply N.eqb_eq in B. assert (p = Pkg r its0) by (apply node_of_id; auto). subst p.
-        intros X; inversion X; subst. now apply F.
-      + apply (inv_srcf st I p b0 Hp).
-    - intros SS p b0 pr0 Hp. cbn. destruct (N.eqb (pid p) (r_id r)) eqn:B.
-      + apply N.eqb_eq in B. assert (p = Pkg r its0) by (apply node_of_id; auto). subst p.
-        intros X; inversion X; subst. now apply S.
-      + apply (inv_srcs st I SS p b0 pr0 Hp).
+    - intros p b0 Hp Hsp. cbn. destruct (N.eqb (r_src (recipe_of p)) (r_src r)) eqn:B.
+      + apply N.eqb_eq in B. destruct (Hsrc p (Pkg r its0) Hp Hr Hsp Hs0 B) as [Eid _]. cbn [recipe_of] in Eid.
+        intros X; inversion X; subst. rewrite Eid. now apply F.
+      + apply (inv_srcf st I p b0 Hp Hsp).
+    - intros SS p b0 pr0 Hp Hsp. cbn. destruct (N.eqb (r_src (recipe_of p)) (r_src r)) eqn:B.
+      + apply N.eqb_eq in B. destruct (Hsrc p (Pkg r its0) Hp Hr Hsp Hs0 B) as [Eid _]. cbn [recipe_of] in Eid.
+        intros X; inversion X; subst. rewrite Eid. now apply S.
+      + apply (inv_srcs st I SS p b0 pr0 Hp Hsp).
     - intros SS p l x Hp Hl. apply (inv_tr st I SS p l x Hp Hl).
   Qed.
 
   Lemma src_bid_inv r its0 st b s :
-    In (Pkg r its0) NN -> Inv st -> src_bid c r st = (b, s) ->
-    Inv s /\ keeps st s /\ grows st s /\ bdids s = bdids st /\ sa_of s (r_id r) = b /\ lookupN (r_id r) (srcids s) <> None.
+    In (Pkg r its0) NN -> has_src its0 = true -> Inv st -> src_bid c r st = (b, s) ->
+    Inv s /\ keeps st s /\ grows st s /\ bdids s = bdids st /\ sa_of s (r_src r) = b /\ lookupN (r_src r) (srcids s) <> None.
   Proof.
-    intros Hr I X0. pose proof (src_bid_keeps c r st b s X0) as K. revert X0. unfold src_bid.
-    destruct (lookupN (r_id r) (srcids st)) as [[b0 pr]|] eqn:E.
+    intros Hr Hs0 I X0. pose proof (src_bid_keeps c r st b s X0) as K. revert X0. unfold src_bid.
+    destruct (lookupN (r_src r) (srcids st)) as [[b0 pr]|] eqn:E.
     - intros X; inversion X; subst. split; [exact I|]. split; [apply keeps_refl|]. split; [apply grows_refl|].
       split; [reflexivity|]. split; [unfold sa_of; now rewrite E | congruence].
-    - destruct (negb (memN (r_id r) (srcx st)) && r_haslive r && c_can_download c).
+    - destruct (negb (memN (r_src r) (srcx st)) && r_haslive r && c_can_download c).
       + destruct (match r_live r with Some l => translate c l st | None => (None, st) end) as [t s0] eqn:TR.
         assert (T0 : Inv s0 /\ srcids s0 = srcids st /\ bdids s0 = bdids st /\
                      (forall x, t = Some x -> strict -> x = r_srcid r)).
@@ -755,8 +760,8 @@ Section Correct.
           - destruct (translate_spec l st t s0 TR) as (K0 & A1 & A2 & A3 & A4 & A5 & A6 & A7).
             split; [|split; [exact A1|split; [exact A2|]]].
             + apply (Inv_src_step st _ I); [exact K0 | intros id v; now rewrite A1 | exact A2 | | |].
-              * intros p b1 Hp. rewrite A1. apply (inv_srcf st I p b1 Hp).
-              * intros S p b1 pr Hp. rewrite A1. apply (inv_srcs st I S p b1 pr Hp).
+              * intros p b1 Hp Hsp. rewrite A1. apply (inv_srcf st I p b1 Hp Hsp).
+              * intros S p b1 pr Hp Hsp. rewrite A1. apply (inv_srcs st I S p b1 pr Hp Hsp).
               * intros S p l' x Hp Hl. rewrite A3. intros [H|H].
                 -- apply A7 in H. apply (inv_tr st I S p l' x Hp Hl H).
                 -- apply (inv_tr st I S p l' x Hp Hl). now right.
@@ -764,25 +769,25 @@ Section Correct.
           - inversion TR; subst. split; [exact I|]. split; [reflexivity|]. split; [reflexivity|]. discriminate. }
         destruct T0 as (I0 & A1 & A2 & A6).
         destruct t as [x|]; intros X; inversion X; subst.
-        * assert (E0 : lookupN (r_id r) (srcids (ev (EQuery (r_id r) true) s0)) = None) by (cbn; now rewrite A1).
-          destruct (add_srcid_inv r its0 (ev (EQuery (r_id r) true) s0) b true Hr (Inv_ev _ _ I0) E0) as [I1 G1];
+        * assert (E0 : lookupN (r_src r) (srcids (ev (EQuery (r_src r) true) s0)) = None) by (cbn; now rewrite A1).
+          destruct (add_srcid_inv r its0 (ev (EQuery (r_src r) true) s0) b true Hr Hs0 (Inv_ev _ _ I0) E0) as [I1 G1];
             [discriminate | now apply A6 |].
           split; [exact I1|]. split; [exact K|]. split.
           { intros id v H. apply G1. cbn. now rewrite A1. }
           split; [cbn; exact A2|]. split; [unfold sa_of; cbn; now rewrite N.eqb_refl|].
           cbn. rewrite N.eqb_refl. discriminate.
-        * destruct (do_checkout_inv r its0 (ev (EQuery (r_id r) false) s0) Hr (Inv_ev _ _ I0)) as (I1 & B1 & B2).
-          assert (E0 : lookupN (r_id r) (srcids (do_checkout c r (ev (EQuery (r_id r) false) s0))) = None)
+        * destruct (do_checkout_inv r its0 (ev (EQuery (r_src r) false) s0) Hr (Inv_ev _ _ I0)) as (I1 & B1 & B2).
+          assert (E0 : lookupN (r_src r) (srcids (do_checkout c r (ev (EQuery (r_src r) false) s0))) = None)
             by (rewrite B1; cbn; now rewrite A1).
-          destruct (add_srcid_inv r its0 _ (r_srcid r) false Hr I1 E0) as [I2 G2]; auto.
+          destruct (add_srcid_inv r its0 _ (r_srcid r) false Hr Hs0 I1 E0) as [I2 G2]; auto.
           split; [exact I2|]. split; [exact K|]. split.
           { intros id v H. apply G2. rewrite B1. cbn. now rewrite A1. }
           split; [cbn; rewrite B2; cbn; exact A2|]. split; [unfold sa_of; cbn; now rewrite N.eqb_refl|].
           cbn. rewrite N.eqb_refl. discriminate.
       + intros X; inversion X; subst.
         destruct (do_checkout_inv r its0 st Hr I) as (I1 & B1 & B2).
-        assert (E0 : lookupN (r_id r) (srcids (do_checkout c r st)) = None) by (now rewrite B1).
-        destruct (add_srcid_inv r its0 _ (r_srcid r) false Hr I1 E0) as [I2 G2]; auto.
+        assert (E0 : lookupN (r_src r) (srcids (do_checkout c r st)) = None) by (now rewrite B1).
+        destruct (add_srcid_inv r its0 _ (r_srcid r) false Hr Hs0 I1 E0) as [I2 G2]; auto.
         split; [exact I2|]. split; [exact K|]. split.
         { intros id v H. apply G2. now rewrite B1. }
         split; [cbn; exact B2|]. split; [unfold sa_of; cbn; now rewrite N.eqb_refl|].
@@ -811,18 +816,19 @@ Section Correct.
   Qed.
 
   Definition items_cov (its : items) (st : state) : Prop :=
-    forall q, In q (nodes_items its) -> has_src (items_of q) = true -> lookupN (pid q) (srcids st) <> None.
+    forall q, In q (nodes_items its) -> has_src (items_of q) = true -> lookupN (r_src (recipe_of q)) (srcids st) <> None.
 
   Lemma get_bid_inv :
     (forall p st b s, In p NN -> Inv st -> get_bid p st = (b, s) ->
         Inv s /\ keeps st s /\ grows st s /\ b = Tsa (sa_of s) p /\ covered p s) /\
     (forall its r its0 st sb kb s,
-        In (Pkg r its0) NN -> (forall q, In q (nodes_items its) -> In q NN) -> Inv st ->
+        In (Pkg r its0) NN -> (has_src its = true -> has_src its0 = true) ->
+        (forall q, In q (nodes_items its) -> In q NN) -> Inv st ->
         get_bid_items r its st = (sb, kb, s) ->
         Inv s /\ keeps st s /\ grows st s /\
-        sb = (if has_src its then Some (sa_of s (r_id r)) else None) /\
+        sb = (if has_src its then Some (sa_of s (r_src r)) else None) /\
         kb = tbid_sa_items bidf (sa_of s) its /\ items_cov its s /\
-        (has_src its = true -> lookupN (r_id r) (srcids s) <> None)).
+        (has_src its = true -> lookupN (r_src r) (srcids s) <> None)).
   Proof.
     apply pkg_items_mutind.
     - intros r its IH st b s Hp I. rewrite get_bid_eq.
@@ -834,34 +840,35 @@ Section Correct.
         { intros q Hq. eapply sub_in; [exact Hp|]. cbn. now right. }
         assert (Eb : bidf r sb kb = Tsa (sa_of s1) (Pkg r its)) by (cbn [tbid_sa]; now rewrite Esb, Ekb).
         assert (C : covered (Pkg r its) s1).
-        { intros q [<-|Hq] Hsrc; [apply Hs; exact Hsrc | apply Cov; assumption]. }
+        { intros q [<-|Hq] Hsrc0; [apply Hs; exact Hsrc0 | apply Cov; assumption]. }
         split; [apply (Inv_set_bdids s1 (Pkg r its)); assumption|].
         split; [eapply keeps_trans; [exact K1 | repeat split]|].
         split; [exact G1|]. split; [exact Eb | exact C].
-    - intros r its0 st sb kb s Hr Hk I X. rewrite get_bid_items_nil in X. inversion X; subst.
+    - intros r its0 st sb kb s Hr Hh Hk I X. rewrite get_bid_items_nil in X. inversion X; subst.
       split; [exact I|]. split; [apply keeps_refl|]. split; [apply grows_refl|].
       split; [reflexivity|]. split; [reflexivity|]. split; [intros q []|discriminate].
-    - intros rest IH r its0 st sb kb s Hr Hk I. rewrite get_bid_items_src.
+    - intros rest IH r its0 st sb kb s Hr Hh Hk I. rewrite get_bid_items_src.
       destruct (src_bid c r st) as [b s1] eqn:S. destruct (get_bid_items r rest s1) as [[sb' kb'] s2] eqn:G.
       intros X; inversion X; subst.
-      destruct (src_bid_inv r its0 st b s1 Hr I S) as (I1 & K1 & G1 & B1 & Sa & Pr).
-      destruct (IH r its0 s1 sb' kb s Hr Hk I1 G) as (I2 & K2 & G2 & _ & Ekb & Cov & _).
+      assert (Hs0 : has_src its0 = true) by (apply Hh; reflexivity).
+      destruct (src_bid_inv r its0 st b s1 Hr Hs0 I S) as (I1 & K1 & G1 & B1 & Sa & Pr).
+      destruct (IH r its0 s1 sb' kb s Hr (fun _ => Hs0) Hk I1 G) as (I2 & K2 & G2 & _ & Ekb & Cov & _).
       split; [exact I2|]. split; [eapply keeps_trans; eauto|]. split; [eapply grows_trans; eauto|].
       split; [cbn [has_src]; f_equal; rewrite (grows_sa s1 s _ G2 Pr); now rewrite Sa|].
       split; [exact Ekb|]. split; [exact Cov|]. intros _. eapply grows_present; eauto.
-    - intros p IHp weak dd rest IHr r its0 st sb kb s Hr Hk I. rewrite get_bid_items_dep.
+    - intros p IHp weak dd rest IHr r its0 st sb kb s Hr Hh Hk I. rewrite get_bid_items_dep.
       destruct (get_bid p st) as [b s1] eqn:G1. destruct (get_bid_items r rest s1) as [[sb' kb'] s2] eqn:G2.
       intros X; inversion X; subst.
       assert (Hp : In p NN) by (apply Hk; cbn; apply in_app_iff; left; apply nodes_self).
       destruct (IHp st b s1 Hp I G1) as (I1 & K1 & Gr1 & Eb & C1).
       assert (Hk' : forall q, In q (nodes_items rest) -> In q NN) by (intros q Hq; apply Hk; cbn; apply in_app_iff; now right).
-      destruct (IHr r its0 s1 sb kb' s Hr Hk' I1 G2) as (I2 & K2 & Gr2 & Esb & Ekb & Cov & Hs).
+      destruct (IHr r its0 s1 sb kb' s Hr Hh Hk' I1 G2) as (I2 & K2 & Gr2 & Esb & Ekb & Cov & Hs).
       split; [exact I2|]. split; [eapply keeps_trans; eauto|]. split; [eapply grows_trans; eauto|].
       split; [exact Esb|].
       assert (Eb' : b = Tsa (sa_of s) p) by (rewrite (grows_tsa p s1 s Gr2 C1); exact Eb).
       split; [cbn [tbid_sa_items]; destruct weak; [exact Ekb | now rewrite Eb', Ekb]|].
       split; [|exact Hs].
-      intros q Hq Hsrc. cbn in Hq. apply in_app_iff in Hq. destruct Hq as [Hq|Hq].
+      intros q Hq Hsrc0. cbn in Hq. apply in_app_iff in Hq. destruct Hq as [Hq|Hq].
       + eapply grows_present; [exact Gr2 | apply C1; assumption].
       + apply Cov; assumption.
   Qed.
@@ -1071,36 +1078,36 @@ Section Correct.
   Lemma adm_of_covered p st : Inv st -> In p NN -> covered p st -> adm (sa_of st) p.
   Proof.
     intros I Hp C S q Hq Hs. specialize (C q Hq Hs). unfold sa_of.
-    destruct (lookupN (pid q) (srcids st)) as [[b pr]|] eqn:E; [|congruence].
-    apply (inv_srcs st I S q b pr); [eapply sub_in; eauto | exact E].
+    destruct (lookupN (r_src (recipe_of q)) (srcids st)) as [[b pr]|] eqn:E; [|congruence].
+    apply (inv_srcs st I S q b pr); [eapply sub_in; eauto | exact Hs | exact E].
   Qed.
 
   Lemma handle_changed_inv r its0 st :
-    In (Pkg r its0) NN -> Inv st -> ~ strict -> Inv (handle_changed r st).
+    In (Pkg r its0) NN -> has_src its0 = true -> Inv st -> ~ strict -> Inv (handle_changed r st).
   Proof.
-    intros Hr I NS. unfold handle_changed. apply Inv_ev. destruct I.
+    intros Hr Hs0 I NS. unfold handle_changed. apply Inv_ev. destruct I.
     constructor; cbn; auto; try discriminate; try (intros S; contradiction).
-    intros p b Hp. destruct (N.eqb (pid p) (r_id r)) eqn:B.
-    - apply N.eqb_eq in B. assert (p = Pkg r its0) by (apply node_of_id; auto). subst p.
-      intros X; inversion X; reflexivity.
-    - apply inv_srcf0. exact Hp.
+    intros p b Hp Hsp. destruct (N.eqb (r_src (recipe_of p)) (r_src r)) eqn:B.
+    - apply N.eqb_eq in B. destruct (Hsrc p (Pkg r its0) Hp Hr Hsp Hs0 B) as [Eid _]. cbn [recipe_of] in Eid.
+      intros X; inversion X. symmetry. exact Eid.
+    - apply inv_srcf0; assumption.
   Qed.
 
   Lemma cook_checkout_post r its0 st :
-    In (Pkg r its0) NN -> Inv st -> post st [] (cook_checkout c r st).
+    In (Pkg r its0) NN -> has_src its0 = true -> Inv st -> post st [] (cook_checkout c r st).
   Proof.
-    intros Hr I. unfold cook_checkout.
-    destruct (memN (r_id r) (corun st)); [cbn; split; [exact I|split; [intros ? []|apply ext_refl]]|].
+    intros Hr Hs0 I. unfold cook_checkout.
+    destruct (memN (r_src r) (corun st)); [cbn; split; [exact I|split; [intros ? []|apply ext_refl]]|].
     destruct (do_checkout_inv r its0 st Hr I) as (I1 & B1 & B2).
     pose proof (do_checkout_keeps c r st) as (K1 & K2 & K3 & K4).
-    unfold verify_src. destruct (lookupN (r_id r) (srcids (do_checkout c r st))) as [[b pr]|] eqn:E.
+    unfold verify_src. destruct (lookupN (r_src r) (srcids (do_checkout c r st))) as [[b pr]|] eqn:E.
     - destruct (beqb b (r_srcid r)) eqn:B.
       + cbn. split; [exact I1|]. split; [intros ? []|]. now apply ext_same.
       + apply beqb_neq in B. destruct pr.
         * cbn. assert (NS : ~ strict).
-          { intros S. apply B. apply (inv_srcs _ I1 S (Pkg r its0) b true Hr E). }
+          { intros S. apply B. apply (inv_srcs _ I1 S (Pkg r its0) b true Hr Hs0 E). }
           split; [exact NS | now apply (handle_changed_inv r its0)].
-        * cbn. apply B. apply (inv_srcf _ I1 (Pkg r its0) b Hr E).
+        * cbn. apply B. apply (inv_srcf _ I1 (Pkg r its0) b Hr Hs0 E).
     - cbn. split; [exact I1|]. split; [intros ? []|]. now apply ext_same.
   Qed.
 
@@ -1114,7 +1121,8 @@ Section Correct.
 
   Lemma cook_post :
     (forall p d st, In p NN -> Inv st -> post st [pid p] (cook d p st)) /\
-    (forall its d r its0 st, In (Pkg r its0) NN -> (forall q, In q (nodes_items its) -> In q NN) -> Inv st ->
+    (forall its d r its0 st, In (Pkg r its0) NN -> (has_src its = true -> has_src its0 = true) ->
+                             (forall q, In q (nodes_items its) -> In q NN) -> Inv st ->
                              post st (map pid (kids its)) (cook_items d r its st)).
   Proof.
     apply pkg_items_mutind.
@@ -1161,7 +1169,7 @@ Section Correct.
       + destruct DP as (J1 & J3 & J4 & J5).
         assert (Hk : forall q, In q (nodes_items its) -> In q NN).
         { intros q Hq. eapply sub_in; [exact Hp|]. cbn. now right. }
-        specialize (IH d r its s Hp Hk J1).
+        specialize (IH d r its s Hp (fun H => H) Hk J1).
         pose proof (proj2 (cook_frame hashW bidf run_build run_pkg c) its d r s) as FR.
         destruct (cook_items d r its s) as [s1|s1|e s1| |]; cbn [post] in IH |- *; auto.
         destruct IH as (Q1 & Q2 & Q3). cbn [res_frame] in FR. destruct FR as [FR1 FR2].
@@ -1197,21 +1205,22 @@ Section Correct.
              destruct UW as [UW1 UW2]. split; [intros id [<-|[]]; now rewrite UW1|].
              eapply ext_trans; [exact X3 | now apply ext_same].
         * split; [exact R4|]. split; [intros id [<-|[]]; exact M5 | exact X3].
-    - intros d r its0 st Hr Hk I. cbn. split; [exact I|]. split; [intros ? []|apply ext_refl].
-    - intros rest IH d r its0 st Hr Hk I. rewrite cook_items_src.
-      pose proof (cook_checkout_post r its0 st Hr I) as CP.
+    - intros d r its0 st Hr Hh Hk I. cbn. split; [exact I|]. split; [intros ? []|apply ext_refl].
+    - intros rest IH d r its0 st Hr Hh Hk I. rewrite cook_items_src.
+      assert (Hs0 : has_src its0 = true) by (apply Hh; reflexivity).
+      pose proof (cook_checkout_post r its0 st Hr Hs0 I) as CP.
       destruct (cook_checkout c r st) as [s|s|e s| |]; cbn [post] in CP |- *; auto.
       destruct CP as (I1 & _ & X1).
-      specialize (IH d r its0 s Hr Hk I1). cbn [kids].
+      specialize (IH d r its0 s Hr (fun _ => Hs0) Hk I1). cbn [kids].
       destruct (cook_items d r rest s) as [s1|s1|e s1| |]; cbn [post] in IH |- *; auto.
       destruct IH as (Q1 & Q2 & Q3). split; [exact Q1|]. split; [exact Q2 | eapply ext_trans; eauto].
-    - intros p IHp weak dd rest IHr d r its0 st Hr Hk I. rewrite cook_items_dep.
+    - intros p IHp weak dd rest IHr d r its0 st Hr Hh Hk I. rewrite cook_items_dep.
       assert (Hp : In p NN) by (apply Hk; cbn; apply in_app_iff; left; apply nodes_self).
       specialize (IHp (d + dd) st Hp I).
       destruct (cook (d + dd) p st) as [s|s|e s| |]; cbn [post] in IHp |- *; auto.
       destruct IHp as (I1 & P2 & X1).
       assert (Hk' : forall q, In q (nodes_items rest) -> In q NN) by (intros q Hq; apply Hk; cbn; apply in_app_iff; now right).
-      specialize (IHr d r its0 s Hr Hk' I1).
+      specialize (IHr d r its0 s Hr Hh Hk' I1).
       destruct (cook_items d r rest s) as [s1|s1|e s1| |]; cbn [post] in IHr |- *; auto.
       destruct IHr as (Q1 & Q2 & Q3). split; [exact Q1|]. split; [|eapply ext_trans; eauto].
       cbn [kids map]. intros id [<-|Hid]; [|now apply Q2]. apply (proj1 Q3). apply P2. now left.
@@ -1251,17 +1260,19 @@ End Correct.
 
 (* ------------------------------------------------------------------ download_equals_local *)
 Definition act (root : pkg) (id : label) : bytes :=
-  match find (fun q => N.eqb (pid q) id) (nodes root) with
+  match find (fun q => has_src (items_of q) && N.eqb (r_src (recipe_of q)) id) (nodes root) with
   | Some q => r_srcid (recipe_of q)
   | None => []
   end.
 
-Lemma act_right root p : uniq_ids root -> In p (nodes root) -> right_on (act root) p.
+Lemma act_right root p : src_consistent root -> In p (nodes root) -> right_on (act root) p.
 Proof.
-  intros U Hp q Hq _. assert (Hq' : In q (nodes root)) by (eapply (proj1 nodes_trans); eauto).
-  unfold act. destruct (find (fun x => N.eqb (pid x) (pid q)) (nodes root)) as [x|] eqn:F.
-  - apply find_some in F. destruct F as [Hx E]. apply N.eqb_eq in E. now rewrite (U x q Hx Hq' E).
-  - pose proof (find_none _ _ F q Hq') as E. cbn in E. now rewrite N.eqb_refl in E.
+  intros U Hp q Hq Hs. assert (Hq' : In q (nodes root)) by (eapply (proj1 nodes_trans); eauto).
+  unfold act.
+  destruct (find (fun x => has_src (items_of x) && N.eqb (r_src (recipe_of x)) (r_src (recipe_of q))) (nodes root)) as [x|] eqn:F.
+  - apply find_some in F. destruct F as [Hx E]. apply andb_true_iff in E. destruct E as [E1 E2].
+    apply N.eqb_eq in E2. exact (proj1 (U x q Hx Hq' E1 Hs E2)).
+  - pose proof (find_none _ _ F q Hq') as E. cbn in E. rewrite Hs, N.eqb_refl in E. discriminate.
 Qed.
 
 Section Theorems.
@@ -1289,7 +1300,7 @@ Section Theorems.
   Qed.
 
   Lemma Inv_end_strict root s (allwf : Prop) :
-    uniq_ids root -> Inv hashW bidf run_build run_pkg root True allwf s ->
+    src_consistent root -> Inv hashW bidf run_build run_pkg root True allwf s ->
     trusted_ws hashW bidf run_build run_pkg root s /\ translations_right root s /\
     archive_sound_for hashW bidf run_build run_pkg root (arch s).
   Proof.
@@ -1305,7 +1316,7 @@ Section Theorems.
   Qed.
 
   Lemma download_equals_local_proof c root st0 :
-    uniq_ids root -> live_consistent root -> ids_sound_in bidf run_build run_pkg root ->
+    uniq_ids root -> src_consistent root -> live_consistent root -> ids_sound_in bidf run_build run_pkg root ->
     trusted_ws hashW bidf run_build run_pkg root st0 -> translations_right root st0 ->
     archive_sound_for hashW bidf run_build run_pkg root (arch st0) ->
     match invoke hashW bidf run_build run_pkg c root st0 with
@@ -1319,9 +1330,9 @@ Section Theorems.
     | _ => False
     end.
   Proof.
-    intros U LC IS TW TR AS.
+    intros U SC LC IS TW TR AS.
     pose proof (Inv_begin_strict root st0 False U TW TR AS (fun f : False => match f with end)) as I0.
-    pose proof (cook_strict_no_restart hashW bidf run_build run_pkg c root True False U (fun _ => LC) (fun _ => IS)
+    pose proof (cook_strict_no_restart hashW bidf run_build run_pkg c root True False U SC (fun _ => LC) (fun _ => IS)
                                        (or_introl Logic.I) (begin_invocation st0) Logic.I I0) as P.
     unfold invoke. cbn [cook_loop].
     destruct (cook hashW bidf run_build run_pkg c 0 root (begin_invocation st0)) as [s|s|e s| |]; try contradiction; [|exact Logic.I].
@@ -1336,10 +1347,10 @@ Section Theorems.
 
   Lemma do_checkout_nopkg c r st : nopkg st -> nopkg (do_checkout c r st).
   Proof.
-    intros H. unfold do_checkout. destruct (memN (r_id r) (corun st)); [exact H|].
-    assert (H1 : nopkg (ev (ECheckout (r_id r)) (set_srcx st (r_id r :: srcx st)))).
+    intros H. unfold do_checkout. destruct (memN (r_src r) (corun st)); [exact H|].
+    assert (H1 : nopkg (ev (ECheckout (r_src r)) (set_srcx st (r_src r :: srcx st)))).
     { intros e [<-|He]; [reflexivity | now apply H]. }
-    destruct (negb (memN (r_id r) (srcx st)) && c_can_upload c && r_haslive r); [destruct (r_livecalc r)|]; exact H1.
+    destruct (negb (memN (r_src r) (srcx st)) && c_can_upload c && r_haslive r); [destruct (r_livecalc r)|]; exact H1.
   Qed.
 
   Lemma translate_trace c l st t s : translate c l st = (t, s) -> trace s = trace st.
@@ -1350,13 +1361,13 @@ Section Theorems.
 
   Lemma src_bid_nopkg c r st b s : src_bid c r st = (b, s) -> nopkg st -> nopkg s.
   Proof.
-    unfold src_bid. destruct (lookupN (r_id r) (srcids st)) as [[b0 pr]|]; [intros E; now inversion E|].
-    destruct (negb (memN (r_id r) (srcx st)) && r_haslive r && c_can_download c).
+    unfold src_bid. destruct (lookupN (r_src r) (srcids st)) as [[b0 pr]|]; [intros E; now inversion E|].
+    destruct (negb (memN (r_src r) (srcx st)) && r_haslive r && c_can_download c).
     - destruct (match r_live r with Some l => translate c l st | None => (None, st) end) as [t s0] eqn:TR.
       assert (T0 : trace s0 = trace st).
       { destruct (r_live r); [eapply translate_trace; eauto | now inversion TR]. }
       intros E H.
-      assert (H1 : forall k, nopkg (ev (EQuery (r_id r) k) s0)).
+      assert (H1 : forall k, nopkg (ev (EQuery (r_src r) k) s0)).
       { intros k e [<-|He]; [reflexivity | apply H; now rewrite <- T0]. }
       destruct t; inversion E; subst; [apply H1|].
       apply (do_checkout_nopkg c r _ (H1 false)).
@@ -1401,7 +1412,7 @@ Section Theorems.
   (* ---- the downloading side *)
   Lemma downloader_takes c r its stB a :
     let root := Pkg r its in
-    uniq_ids root -> live_consistent root -> ids_sound_in bidf run_build run_pkg root ->
+    uniq_ids root -> src_consistent root -> live_consistent root -> ids_sound_in bidf run_build run_pkg root ->
     ws stB = [] -> translations_right root stB ->
     archive_sound_for hashW bidf run_build run_pkg root (arch stB) ->
     lookupB (T root) (arch stB) = Some a -> wellformed hashW a ->
@@ -1411,7 +1422,7 @@ Section Theorems.
     | _ => False
     end.
   Proof.
-    intros root U LC IS WS TR AS LK WF CD TRY NF. subst root. set (root := Pkg r its) in *.
+    intros root U SC LC IS WS TR AS LK WF CD TRY NF. subst root. set (root := Pkg r its) in *.
     pose proof (Inv_begin_strict root stB False U (fresh_trusted root stB WS) TR AS (fun f : False => match f with end)) as I0.
     set (st0 := begin_invocation stB) in *.
     assert (G0 : getws (r_id r) st0 = fresh_pws) by (unfold getws, st0; cbn; now rewrite WS).
@@ -1423,7 +1434,7 @@ Section Theorems.
       apply (unshare_inv hashW bidf run_build run_pkg root True False U r its _ I1 (nodes_self root)); [|exact V1].
       pose proof (prepare_upd r st0) as UP. now rewrite (upd_wasrun _ _ _ UP). }
     destruct (get_bid bidf c (Pkg r its) (unshare r (prepare r st0))) as [b st2] eqn:G.
-    destruct (proj1 (get_bid_inv hashW bidf run_build run_pkg c root True False U (fun _ => LC)) (Pkg r its) _ b st2 (nodes_self root) I2 G)
+    destruct (proj1 (get_bid_inv hashW bidf run_build run_pkg c root True False U SC (fun _ => LC)) (Pkg r its) _ b st2 (nodes_self root) I2 G)
       as (I3 & (K1 & K2 & K3 & K4) & _ & Eb & C3).
     assert (Eb' : b = T root).
     { rewrite Eb. apply (proj1 (tbid_sa_right bidf)).
@@ -1448,19 +1459,19 @@ Section Theorems.
   (* ---- the uploading side: a fresh workspace that builds everything publishes its root package *)
   Lemma uploader_publishes c r its stA sA :
     let root := Pkg r its in
-    uniq_ids root -> live_consistent root -> ids_sound_in bidf run_build run_pkg root ->
+    uniq_ids root -> src_consistent root -> live_consistent root -> ids_sound_in bidf run_build run_pkg root ->
     ws stA = [] -> never_tries c -> c_can_upload c = true ->
     translations_right root stA ->
     archive_sound_for hashW bidf run_build run_pkg root (arch stA) -> all_wellformed hashW (arch stA) ->
     invoke hashW bidf run_build run_pkg c root stA = Ok sA ->
     Inv hashW bidf run_build run_pkg root True True sA /\ exists a, lookupB (T root) (arch sA) = Some a.
   Proof.
-    intros root U LC IS WS NT CU TR AS AW. subst root. set (root := Pkg r its) in *.
+    intros root U SC LC IS WS NT CU TR AS AW. subst root. set (root := Pkg r its) in *.
     pose proof (Inv_begin_strict root stA True U (fresh_trusted root stA WS) TR AS (fun _ => AW)) as I0.
     set (st0 := begin_invocation stA) in *.
     assert (G0 : getws (r_id r) st0 = fresh_pws) by (unfold getws, st0; cbn; now rewrite WS).
     destruct (fresh_prepared r st0 G0) as (P1 & P2 & P3 & P4 & P5 & P6).
-    pose proof (cook_strict_no_restart hashW bidf run_build run_pkg c root True True U (fun _ => LC) (fun _ => IS)
+    pose proof (cook_strict_no_restart hashW bidf run_build run_pkg c root True True U SC (fun _ => LC) (fun _ => IS)
                                        (or_introl Logic.I) st0 Logic.I I0) as PP.
     unfold invoke. cbn [cook_loop]. fold st0.
     destruct (cook hashW bidf run_build run_pkg c 0 root st0) as [s|s|e s| |] eqn:CK; try contradiction; try discriminate.
@@ -1473,7 +1484,7 @@ Section Theorems.
       pose proof (prepare_upd r st0) as UP. now rewrite (upd_wasrun _ _ _ UP). }
     destruct I2 as [I2 V2].
     destruct (get_bid bidf c (Pkg r its) (unshare r (prepare r st0))) as [b st2] eqn:G.
-    destruct (proj1 (get_bid_inv hashW bidf run_build run_pkg c root True True U (fun _ => LC)) (Pkg r its) _ b st2 (nodes_self root) I2 G)
+    destruct (proj1 (get_bid_inv hashW bidf run_build run_pkg c root True True U SC (fun _ => LC)) (Pkg r its) _ b st2 (nodes_self root) I2 G)
       as (I3 & (K1 & K2 & K3 & K4) & _ & Eb & C3).
     assert (Eb' : b = T root).
     { rewrite Eb. apply (proj1 (tbid_sa_right bidf)).
@@ -1483,8 +1494,8 @@ Section Theorems.
     set (s0 := set_tried st2 (r_id r :: tried st2)).
     assert (IS0 : Inv hashW bidf run_build run_pkg root True True s0) by (now apply Inv_set_tried).
     assert (Hk : forall q, In q (nodes_items its) -> In q (nodes root)) by (intros q Hq; cbn; now right).
-    pose proof (proj2 (cook_post hashW bidf run_build run_pkg c root True True U (fun _ => LC) (fun _ => IS) (or_introl Logic.I))
-                      its 0 r its s0 (nodes_self root) Hk IS0) as CP.
+    pose proof (proj2 (cook_post hashW bidf run_build run_pkg c root True True U SC (fun _ => LC) (fun _ => IS) (or_introl Logic.I))
+                      its 0 r its s0 (nodes_self root) (fun H => H) Hk IS0) as CP.
     pose proof (proj2 (cook_frame hashW bidf run_build run_pkg c) its 0 r s0) as FR.
     destruct (cook_items hashW bidf run_build run_pkg c 0 r its s0) as [s1|s1|e s1| |]; try discriminate.
     cbn [post] in CP. destruct CP as (Q1 & Q2 & Q3). cbn [res_frame] in FR. destruct FR as [FR1 FR2].
@@ -1509,7 +1520,7 @@ Section Theorems.
 
   Lemma other_workspace_zero_builds_proof cA cB r its stA sA stB :
     let root := Pkg r its in
-    uniq_ids root -> live_consistent root -> ids_sound_in bidf run_build run_pkg root ->
+    uniq_ids root -> src_consistent root -> live_consistent root -> ids_sound_in bidf run_build run_pkg root ->
     (* the uploader: fresh workspace, builds everything itself and uploads *)
     ws stA = [] -> never_tries cA -> c_can_upload cA = true ->
     translations_right root stA ->
@@ -1523,10 +1534,10 @@ Section Theorems.
     | _ => False
     end.
   Proof.
-    intros root U LC IS WA NT CU TRA ASA AWA RA WB TB EA EL CD TRY NF.
-    destruct (uploader_publishes cA r its stA sA U LC IS WA NT CU TRA ASA AWA RA) as [IA [a LK]].
-    destruct (Inv_end_strict root sA True U IA) as (_ & TR1 & AS1).
-    apply (downloader_takes cB r its stB a U LC IS WB).
+    intros root U SC LC IS WA NT CU TRA ASA AWA RA WB TB EA EL CD TRY NF.
+    destruct (uploader_publishes cA r its stA sA U SC LC IS WA NT CU TRA ASA AWA RA) as [IA [a LK]].
+    destruct (Inv_end_strict root sA True SC IA) as (_ & TR1 & AS1).
+    apply (downloader_takes cB r its stB a U SC LC IS WB).
     - intros p l x Hp Hl [H|H]; [rewrite TB in H; discriminate|]. rewrite EL in H. apply (TR1 p l x Hp Hl). now right.
     - now rewrite EA.
     - now rewrite EA.
@@ -1572,8 +1583,8 @@ Section Termination.
 
   Lemma do_checkout_srcids r st : srcids (do_checkout c r st) = srcids st.
   Proof.
-    unfold do_checkout. destruct (memN (r_id r) (corun st)); [reflexivity|].
-    destruct (negb (memN (r_id r) (srcx st)) && c_can_upload c && r_haslive r); [destruct (r_livecalc r)|]; reflexivity.
+    unfold do_checkout. destruct (memN (r_src r) (corun st)); [reflexivity|].
+    destruct (negb (memN (r_src r) (srcx st)) && c_can_upload c && r_haslive r); [destruct (r_livecalc r)|]; reflexivity.
   Qed.
 
   Lemma translate_srcids l st t s : translate c l st = (t, s) -> srcids s = srcids st.
@@ -1584,8 +1595,8 @@ Section Termination.
 
   Lemma src_bid_vmono r st b s : src_bid c r st = (b, s) -> vmono st s.
   Proof.
-    unfold src_bid. destruct (lookupN (r_id r) (srcids st)) as [[b0 pr]|] eqn:E0; [intros E; inversion E; apply vmono_refl|].
-    destruct (negb (memN (r_id r) (srcx st)) && r_haslive r && c_can_download c).
+    unfold src_bid. destruct (lookupN (r_src r) (srcids st)) as [[b0 pr]|] eqn:E0; [intros E; inversion E; apply vmono_refl|].
+    destruct (negb (memN (r_src r) (srcx st)) && r_haslive r && c_can_download c).
     - destruct (match r_live r with Some l => translate c l st | None => (None, st) end) as [t s0] eqn:TR.
       assert (T0 : srcids s0 = srcids st).
       { destruct (r_live r); [eapply translate_srcids; eauto | now inversion TR]. }
@@ -1618,7 +1629,7 @@ Section Termination.
   with src_ids_items (r : recipe) (its : items) : list label :=
     match its with
     | INil => []
-    | ISrc rest => r_id r :: src_ids_items r rest
+    | ISrc rest => r_src r :: src_ids_items r rest
     | IDep q _ _ rest => src_ids q ++ src_ids_items r rest
     end.
 
@@ -1652,15 +1663,15 @@ Section Termination.
 
   Lemma cook_checkout_rpost r rest st : rpost (src_ids_items r (ISrc rest)) st (cook_checkout c r st).
   Proof.
-    unfold cook_checkout. destruct (memN (r_id r) (corun st)); [apply vmono_refl|].
+    unfold cook_checkout. destruct (memN (r_src r) (corun st)); [apply vmono_refl|].
     pose proof (do_checkout_srcids r st) as D. unfold verify_src. rewrite D.
-    destruct (lookupN (r_id r) (srcids st)) as [[b pr]|] eqn:E; [|cbn; now apply vmono_same].
+    destruct (lookupN (r_src r) (srcids st)) as [[b pr]|] eqn:E; [|cbn; now apply vmono_same].
     destruct (beqb b (r_srcid r)); [cbn; now apply vmono_same|].
     destruct pr; [|exact I]. cbn.
-    assert (V1 : verified (r_id r) st = false) by (unfold verified; now rewrite E).
+    assert (V1 : verified (r_src r) st = false) by (unfold verified; now rewrite E).
     split.
-    - intros id H. unfold verified in *. cbn. rewrite D. destruct (N.eqb id (r_id r)) eqn:B; [reflexivity | exact H].
-    - exists (r_id r). split; [now left|]. split; [exact V1|]. unfold verified. cbn. now rewrite N.eqb_refl.
+    - intros id H. unfold verified in *. cbn. rewrite D. destruct (N.eqb id (r_src r)) eqn:B; [reflexivity | exact H].
+    - exists (r_src r). split; [now left|]. split; [exact V1|]. unfold verified. cbn. now rewrite N.eqb_refl.
   Qed.
 
   Lemma upd_vmono id st s : upd id st s -> vmono st s.
@@ -1755,8 +1766,8 @@ Section Termination.
           destruct (local_step hashW run_build run_pkg c r its b s1). discriminate.
         - discriminate.
         - intros rest IH d0 r st0. rewrite cook_items_src. unfold cook_checkout, verify_src.
-          destruct (memN (r_id r) (corun st0)); [apply IH|].
-          destruct (lookupN (r_id r) (srcids (do_checkout c r st0))) as [[b pr]|]; [|apply IH].
+          destruct (memN (r_src r) (corun st0)); [apply IH|].
+          destruct (lookupN (r_src r) (srcids (do_checkout c r st0))) as [[b pr]|]; [|apply IH].
           destruct (beqb b (r_srcid r)); [apply IH|]. destruct pr; discriminate.
         - intros p IHp weak dd rest IHr d0 r st0. rewrite cook_items_dep. specialize (IHp (d0 + dd) st0).
           destruct (cook (d0 + dd) p st0) as [s|s|e s| |]; try discriminate; [apply IHr | exact IHp]. }
@@ -1784,7 +1795,7 @@ Section Converge.
   Local Notation L := (local run_build run_pkg).
 
   Lemma wrong_prediction_converges_proof c root st0 :
-    uniq_ids root -> c_can_upload c = false ->
+    uniq_ids root -> src_consistent root -> c_can_upload c = false ->
     trusted_ws_all hashW bidf run_build run_pkg root st0 ->
     archive_sound_all hashW bidf run_build run_pkg root (arch st0) ->
     match invoke hashW bidf run_build run_pkg c root st0 with
@@ -1795,14 +1806,14 @@ Section Converge.
     | _ => False
     end.
   Proof.
-    intros U NU TW AS.
+    intros U SC NU TW AS.
     assert (I0 : Inv hashW bidf run_build run_pkg root False False (begin_invocation st0)).
     { constructor; cbn; try discriminate; try (intros F; exfalso; exact F).
       - intros p Hp V. specialize (TW p Hp V). change (getws (pid p) (begin_invocation st0)) with (getws (pid p) st0).
         destruct (s_inputs (getws (pid p) st0)) as [|[|b ins]|b|b loc]; auto.
         intros (sa & _ & E). apply TW. now exists sa.
       - intros p sa a Hp _. now apply AS. }
-    pose proof (cook_loop_post hashW bidf run_build run_pkg c root False False U
+    pose proof (cook_loop_post hashW bidf run_build run_pkg c root False False U SC
                                (fun f : False => match f with end) (fun f : False => match f with end)
                                (or_intror NU) (S (n_srcs root)) (begin_invocation st0) I0) as P.
     pose proof (invoke_terminates_proof hashW bidf run_build run_pkg c root st0) as NT.
@@ -1946,10 +1957,10 @@ Section Mismatch.
       destruct (lookupB b (arch (set_wasrun s2 (r_id r :: wasrun s2)))); now apply (audit_ok_same s2).
     - intros d r st A. exact A.
     - intros rest IH d r st A. rewrite cook_items_src. unfold cook_checkout.
-      destruct (memN (r_id r) (corun st)); [now apply IH|].
+      destruct (memN (r_src r) (corun st)); [now apply IH|].
       pose proof (do_checkout_keeps c r st) as (K1 & _).
       pose proof (audit_ok_same _ _ K1 A) as A1.
-      unfold verify_src. destruct (lookupN (r_id r) (srcids (do_checkout c r st))) as [[b pr]|]; [|now apply IH].
+      unfold verify_src. destruct (lookupN (r_src r) (srcids (do_checkout c r st))) as [[b pr]|]; [|now apply IH].
       destruct (beqb b (r_srcid r)); [now apply IH|]. destruct pr; [|exact I].
       now apply (audit_ok_same (do_checkout c r st)).
     - intros p IHp weak dd rest IHr d r st A. rewrite cook_items_dep.
@@ -1981,7 +1992,7 @@ Proof.
 Qed.
 
 Lemma download_equals_local_honest_proof hashW bidf run_build run_pkg c root st0 :
-  uniq_ids root -> live_consistent root -> ids_sound bidf run_build run_pkg ->
+  uniq_ids root -> src_consistent root -> live_consistent root -> ids_sound bidf run_build run_pkg ->
   trusted_ws hashW bidf run_build run_pkg root st0 -> translations_right root st0 ->
   honest hashW bidf run_build run_pkg (arch st0) ->
   match invoke hashW bidf run_build run_pkg c root st0 with
@@ -1992,8 +2003,8 @@ Lemma download_equals_local_honest_proof hashW bidf run_build run_pkg c root st0
   | _ => False
   end.
 Proof.
-  intros U LC IS TW TR HO.
-  pose proof (download_equals_local_proof hashW bidf run_build run_pkg c root st0 U LC
+  intros U SC LC IS TW TR HO.
+  pose proof (download_equals_local_proof hashW bidf run_build run_pkg c root st0 U SC LC
                 (fun p q _ _ E => IS p q E) TW TR (honest_archive_sound_proof _ _ _ _ root _ HO IS)) as P.
   destruct (invoke hashW bidf run_build run_pkg c root st0); auto.
   destruct P as (_ & P1 & P2 & _). auto.
